@@ -41,7 +41,7 @@ def fa():
 # --------------------------------------------------------------------------- values
 
 def float_bits(x, tag):
-    """canonical bit pattern of a float of the given tag (one NaN, +0 only)"""
+    """canonical bit pattern of a float of the given tag (one NaN)"""
     if tag == "py":
         b = struct.unpack("<Q", struct.pack("<d", float(x)))[0]
         p, ew = 53, 11
@@ -53,8 +53,6 @@ def float_bits(x, tag):
     m = b & ((1 << fb) - 1)
     if e == (1 << ew) - 1 and m:
         return (((1 << ew) - 1) << fb) + (1 << (fb - 1))
-    if b == 1 << (p - 1 + ew):
-        return 0
     return b
 
 
@@ -550,7 +548,13 @@ def eval_exact(expr, env):
             return q, True
         ops = [rec(o) for o in e.operands if isinstance(o, F.Expr)]
         vals = [o[0] for o in ops]
-        allc = all(o[1] for o in ops)
+        if kind == "select" and len(ops) == 3 and isinstance(vals[0], bool):
+            # the rewriter may decide the condition: the node is as constant as the chosen arm
+            allc = ops[1][1] if vals[0] else ops[2][1]
+        elif kind in ("lt", "le", "gt", "ge", "eq", "ne", "logical_and", "logical_or", "logical_not", "logical_xor"):
+            allc = True
+        else:
+            allc = all(o[1] for o in ops)
         v = op(kind, vals, e)
         if allc and kind in ARITH | {"negative", "absolute", "sign", "minimum", "maximum"} and isinstance(v, Fraction):
             if not representable(v, typ_tag(e)):
@@ -642,7 +646,7 @@ def eval_exact(expr, env):
 
 def fp_flags(kind, args, r):
     """NaN produced / overflow / underflow at this node?"""
-    if isinstance(r, (bool, numpy.bool_)):
+    if isinstance(r, (bool, numpy.bool_)) or not isinstance(r, numpy.floating):
         return None
     if r != r:
         return "nan"
@@ -783,6 +787,23 @@ def eval_fp(expr, env, check=True):
     return rec(expr)
 
 
+def decode_env(asg):
+    """assignment record -> (exact environment, floating-point environment)"""
+    envq, envf = {}, {}
+    for k, v in asg["q"].items():
+        envq[k] = bool(v) if isinstance(v, bool) else Fraction(v[0], v[1])
+    for k, v in asg["f"].items():
+        if isinstance(v, bool):
+            envf[k] = bool(v)
+        elif v[0] == "i":
+            envf[k] = numpy.int64(v[1])
+        elif v[0] == "py":
+            envf[k] = numpy.float64(float_of_bits(v[1], "py"))
+        else:
+            envf[k] = float_of_bits(v[1], v[0])
+    return envq, envf
+
+
 def values_equal(a, b):
     """booleans identical, floats equal up to the sign of zero"""
     ab, bb = isinstance(a, (bool, numpy.bool_)), isinstance(b, (bool, numpy.bool_))
@@ -820,7 +841,7 @@ def search_case(spec, assignments):
         return out
     for asg in assignments:
         # exact clause
-        envq = {k: Fraction(v[0], v[1]) for k, v in asg["q"].items()}
+        envq, envf = decode_env(asg)
         try:
             v0 = eval_exact(e, envq)
         except Undefined:
@@ -842,9 +863,6 @@ def search_case(spec, assignments):
                 cnt("exact:inexact-after")
         # fp clause
         try:
-            envf = {}
-            for k, (tag, bits) in asg["f"].items():
-                envf[k] = float_of_bits(bits, tag) if tag != "py" else numpy.float64(float_of_bits(bits, "py"))
             w0 = eval_fp(e, envf, check=True)
         except Undefined:
             cnt("fp:irregular")
@@ -856,6 +874,253 @@ def search_case(spec, assignments):
             cnt("fp:compared")
         except Undefined as ex:
             out["fails"].append(dict(clause="fp", env=asg["f"], orig=repr(w0), new="undefined:" + str(ex)))
+    return out
+
+
+# --------------------------------------------------------------------------- cause signatures
+
+REL_INDEX = dict(ge=(0, 2), gt=(1, 3), le=(2, 0), lt=(3, 1), eq=(4, 4), ne=(5, 5))
+PROPS5 = ["positive", "negative", "nonpositive", "nonnegative", "finite"]
+PAIRS12 = [("positive", "negative"), ("positive", "nonnegative"), ("positive", "nonpositive"), ("negative", "positive"),
+           ("negative", "nonpositive"), ("negative", "nonnegative"), ("nonpositive", "negative"), ("nonpositive", "nonnegative"),
+           ("nonpositive", "positive"), ("nonnegative", "positive"), ("nonnegative", "nonpositive"), ("nonnegative", "negative")]
+
+
+def key_repr(v):
+    if isinstance(v, str):
+        return v
+    try:
+        if v == int(v):
+            return str(int(v))
+    except Exception:  # noqa: BLE001
+        pass
+    return repr(v)
+
+
+def compare_cause(kind, x, y):
+    """Which table lookup of `_compare` decides `x <kind> y`?  (x, y already rewritten)"""
+    from functional_algorithms import rewrite as rw
+    from functional_algorithms.utils import number_types
+
+    idx, sidx = REL_INDEX[kind]
+    try:
+        if x.kind == "constant":
+            xv = x.operands[0]
+            if y.kind == "constant":
+                yv = y.operands[0]
+                try:
+                    if (xv, yv) in rw._constant_relop_constant:
+                        return f"table:_constant_relop_constant:({key_repr(xv)},{key_repr(yv)})"
+                except TypeError:
+                    pass
+                return "compare:constant-constant:evaluated"
+            if isinstance(xv, number_types):
+                for prop in PROPS5:
+                    if y._is(prop):
+                        r = rw._constant_relop_any.get((xv, prop))
+                        if r is not None and r[idx] is not None:
+                            return f"table:_constant_relop_any:({key_repr(xv)},{prop})"
+        elif y.kind == "constant":
+            yv = y.operands[0]
+            if isinstance(yv, number_types):
+                for prop in PROPS5:
+                    if x._is(prop):
+                        r = rw._constant_relop_any.get((yv, prop))
+                        if r is not None and r[sidx] is not None:
+                            return f"table:_constant_relop_any:({key_repr(yv)},{prop})"
+        else:
+            for xp, yp in PAIRS12:
+                if x._is(xp) and y._is(yp):
+                    r = rw._any_relop_any.get((xp, yp))
+                    if r is not None and r[idx] is not None:
+                        return f"table:_any_relop_any:({xp},{yp})"
+    except Exception:  # noqa: BLE001
+        pass
+    return None
+
+
+def cause_of(n):
+    """Stable cause signature for a minimal expression whose rewriting changes its value."""
+    F = fa()
+    k = n.kind
+    ops = [o for o in n.operands if isinstance(o, F.Expr)]
+    try:
+        with quiet():
+            rops = [o.rewrite(F.rewrite) for o in ops]
+    except Exception:  # noqa: BLE001
+        rops = ops
+    if k in REL_INDEX and len(rops) == 2:
+        c = compare_cause(k, rops[0], rops[1])
+        if c:
+            return c
+    if k == "upcast" and ops and ops[0].kind == "downcast":
+        return "rule:upcast(downcast(x))->x"
+    if k in ("add", "subtract", "multiply", "minimum", "maximum") and len(rops) == 2 and all(o.kind == "constant" for o in rops):
+        try:
+            t0, t1 = rops[0].operands[1].get_type(), rops[1].operands[1].get_type()
+            if not t0.is_same(t1):
+                return "fold:_binary_op:operands-of-different-dtype(result takes the dtype of the left operand)"
+        except Exception:  # noqa: BLE001
+            pass
+        return f"fold:{k}(constant,constant)"
+    return f"value:{k}({','.join(o.kind for o in ops)})"
+
+
+def sub_exprs(e):
+    """all sub-expressions, children before parents, without duplicates"""
+    F = fa()
+    seen, out = set(), []
+
+    def rec(x):
+        if id(x) in seen:
+            return
+        seen.add(id(x))
+        if x.kind == "constant":
+            return
+        for o in x.operands:
+            if isinstance(o, F.Expr):
+                rec(o)
+        out.append(x)
+
+    rec(e)
+    return out
+
+
+def value_fails(e, r, assignments):
+    """first failing (clause, assignment, orig, new) of the value clauses, or None"""
+    for asg in assignments:
+        envq, envf = decode_env(asg)
+        try:
+            v0 = eval_exact(e, envq)
+        except (Undefined, Inexact):
+            v0 = None
+        if v0 is not None:
+            try:
+                v1 = eval_exact(r, envq)
+                if not (v0 == v1 if (isinstance(v0, Fraction) and isinstance(v1, Fraction)) else values_equal(v0, v1)):
+                    return ("exact", asg["q"], str(v0), str(v1))
+            except Undefined as ex:
+                return ("exact", asg["q"], str(v0), "undefined:" + str(ex))
+            except Inexact:
+                pass
+        try:
+            w0 = eval_fp(e, envf, check=True)
+        except Undefined:
+            continue
+        try:
+            w1 = eval_fp(r, envf, check=False)
+            if not values_equal(w0, w1):
+                return ("fp", asg["f"], repr(w0), repr(w1))
+        except Undefined as ex:
+            return ("fp", asg["f"], repr(w0), "undefined:" + str(ex))
+    return None
+
+
+def minimal_cause(e, assignments):
+    """smallest sub-expression whose own rewriting changes its value; its cause signature"""
+    for sub in sub_exprs(e):
+        res = real_rewrite(sub)
+        if res[0] != "ok" or res[1] is sub:
+            continue
+        f = value_fails(sub, res[1], assignments)
+        if f is not None:
+            return cause_of(sub), to_dag_safe(sub), f
+    return None, None, None
+
+
+def to_dag_safe(e):
+    try:
+        return to_dag(e)
+    except Exception:  # noqa: BLE001
+        return str(e)
+
+
+def raise_signature(exc, where):
+    if exc == "Watchdog":
+        return "termination:watchdog(10s)"
+    if exc == "NotImplementedError" and "is_complex" in where:
+        return "no-raise:NotImplementedError:Expr.is_complex(kind without a case, reached from sign inference)"
+    if exc == "NotImplementedError" and "get_type" in where:
+        return "no-raise:NotImplementedError:Expr.get_type(kind without a case)"
+    if exc == "AssertionError" and "_is_non" in where:
+        return "no-raise:AssertionError:sign-inference(assert not self.is_complex)"
+    if exc == "ValueError" and "_eval" in where:
+        return "no-raise:ValueError:_eval(math.sqrt of a negative Python-float constant)"
+    if exc == "TypeError" and ("_compare" in where or "logical_" in where):
+        return "no-raise:TypeError:key-comparison(x.key > y.key on constants with unordered values)"
+    return f"no-raise:{exc}:{where}"
+
+
+def search_case_full(spec, assignments):
+    """search_case + cause signatures for the failures"""
+    out = search_case(spec, assignments)
+    if not out["fails"]:
+        return out
+    ctx = new_context()
+    with quiet():
+        e = build(ctx, spec)
+    sigs = []
+    for f in out["fails"]:
+        if f["clause"] == "no-raise":
+            sigs.append(raise_signature(f["exc"], f["where"]))
+    if any(f["clause"] in ("exact", "fp") for f in out["fails"]):
+        sig, dag, ff = minimal_cause(e, assignments)
+        if sig is None:
+            sig = "value:interaction(no single sub-expression fails)"
+        sigs.append(sig)
+        out["minimal"] = dict(dag=dag, failure=ff)
+    out["signatures"] = sigs
+    return out
+
+
+INF_PROPS = ["zero", "one", "finite", "nonnegative", "nonpositive", "positive", "negative"]
+
+
+def infer_holds(p, ans, v):
+    fin = not is_inf(v)
+    if p == "finite":
+        return fin if ans else not fin
+    tab = dict(zero=v == 0, one=v == 1, nonnegative=v >= 0, nonpositive=v <= 0, positive=v > 0, negative=v < 0)
+    return tab[p] if ans else not tab[p]
+
+
+def infer_search_case(spec, assignments):
+    """The real `_is_*` answers of every sub-expression against exact evaluation."""
+    ctx = new_context()
+    out = dict(fails=[], checked=0)
+    try:
+        with quiet():
+            e = build(ctx, spec)
+    except Exception as ex:  # noqa: BLE001
+        out["build_error"] = exc_name(ex)
+        return out
+    for sub in sub_exprs(e) + [c for c in [e] if c.kind == "constant"]:
+        answers = {}
+        for p in INF_PROPS:
+            try:
+                with quiet():
+                    r = getattr(sub, "_is_" + p)
+            except Exception:  # noqa: BLE001
+                continue
+            if r is not None:
+                answers[p] = bool(r)
+        if not answers:
+            continue
+        for asg in assignments:
+            envq, _ = decode_env(asg)
+            try:
+                v = eval_exact(sub, envq)
+            except (Undefined, Inexact):
+                continue
+            if isinstance(v, bool):
+                continue
+            for p, a in answers.items():
+                out["checked"] += 1
+                if not infer_holds(p, a, v):
+                    out["fails"].append(dict(clause="infer", prop=p, answer=a, value=str(v), kind=sub.kind, env=asg["q"], dag=to_dag_safe(sub),
+                                             signature=f"infer:_is_{p}:{sub.kind}"))
+            if out["fails"]:
+                return out
     return out
 
 
@@ -900,7 +1165,10 @@ def main():
             res.append(infer_case(s))
     elif job["mode"] == "search":
         for s, a in zip(specs, job["assignments"]):
-            res.append(search_case(s, a))
+            res.append(search_case_full(s, a))
+    elif job["mode"] == "infersearch":
+        for s, a in zip(specs, job["assignments"]):
+            res.append(infer_search_case(s, a))
     json.dump(res, sys.stdout)
 
 
